@@ -351,6 +351,11 @@ def _exec_fuzzpath(ctx, spec, out):
         before = snapshot(parent)
         dd = obj.datadir
         m = (which >> 1) % 8
+        # same confinement as the campaign (vlib/fuzzers.py): never follow a name out of the scratch directory
+        if not os.path.realpath(os.path.join(parent, name)).startswith(os.path.realpath(d) + os.sep):
+            out.nontrivial = False
+            out.cls('fuzzpath:name-leaves-scratch-skipped')
+            return out
         try:
             if m == 0:
                 dd.write_txt(name, 'x', overwrite=bool(which & 128))
@@ -385,6 +390,8 @@ def task_atheris(ctx, col, runs, mode):
     r = run_atheris(ctx, mode, runs, seeds, tokens, max_len=64)
     col.counters['atheris_executions'] += r['executed']
     col.evaluations += r['executed']
+    for k, v in (r.get('stats') or {}).items():
+        col.counters['atheris_' + k] += v
     if not r['available']:
         col.notes.append(r['note'])
         col.counters['atheris_unavailable'] += 1
